@@ -5,5 +5,6 @@ CONSTANTS
   FlushAtomic = TRUE
   LatchChecked = TRUE
   CloseLatches = TRUE
+  TimeoutReleases = FALSE
 INVARIANTS TypeOK WholeFrames
 CHECK_DEADLOCK FALSE
